@@ -100,6 +100,20 @@ def build(case):
         p, e, c = build(case["base"])
         lat = eg.tile_unit_cell(p, e, c, case["nxy"])
         return arrays(lat)
+    if f == "relabel":              # same embedded graph: edges listed in another order, some stored the other way round
+        p, e, c = build(case["base"])
+        rng = np.random.default_rng([case["seed"], len(e), 7])
+        perm = rng.permutation(len(e))
+        e, c = e[perm].copy(), c[perm].copy()
+        flip = rng.uniform(size=len(e)) < case.get("flip", 0.5)
+        e[flip] = e[flip][:, ::-1]
+        c[flip] = -c[flip]
+        if case.get("vertices", False):
+            vp = rng.permutation(len(p))      # new index of old vertex v is vp[v]
+            q = np.empty_like(p)
+            q[vp] = p
+            p, e = q, vp[e]
+        return p, e, c
     if f == "raw":
         return (np.array(case["positions"], dtype=float).reshape(-1, 2), np.array(case["edges"], dtype=int).reshape(-1, 2),
                 np.array(case["crossing"], dtype=int).reshape(-1, 2))
@@ -196,8 +210,19 @@ def lattice_cases(tier, seed, exhaustive=True):
     cases += vor
     cases += derived_cases(vor + [c for c in example_cases(tier) if c["name"] in
                                   ("honeycomb_lattice", "hex_square_oct_lattice", "tri_non_lattice", "square_lattice")], rng)
+    # relabelled / re-oriented copies: the plaquette SET must not depend on the order or the stored direction of edges
+    pool = [c for c in cases if c["family"] in ("edge_deleted", "cut", "vertex_isolated", "example", "voronoi")]
+    for i in range(min(len(pool), 120 if tier == "quick" else 800)):
+        b = pool[int(rng.integers(0, len(pool)))]
+        cases.append({"family": "relabel", "base": b, "seed": int(rng.integers(0, 2**31)),
+                      "flip": float(rng.choice([0.2, 0.5, 1.0])), "vertices": bool(i % 2)})
     if exhaustive:
         cases += exhaustive_subset_cases(ex_edges)
+        # and relabelled edge subsets of the small bases (dangling edges inside faces, bridges, ...)
+        sub = [c for c in cases if c["family"] == "edge_subset"]
+        for i in range(min(len(sub), 300 if tier == "quick" else 3000)):
+            b = sub[int(rng.integers(0, len(sub)))]
+            cases.append({"family": "relabel", "base": b, "seed": int(rng.integers(0, 2**31)), "flip": 0.5, "vertices": False})
     return cases
 
 
